@@ -18,23 +18,31 @@ EXT_MODULES = ["biotite.sequence.align.multiple"]
 GEN_FILES = ["BiotiteModel/Gen/C11.lean"]
 TECHNIQUE = ("Lean 4 proof (induction over trace columns, CIGAR op lists and the guide tree) + differential correspondence with "
              "alignment.py / cigar.py / fasta/convert.py / multiple.pyx")
-LEVEL_TEXT = ("Lean theorems for traces of every length: gapped strings / code and symbol matrices / FASTA give back the trace "
-              "(renumbered from each sequence's start) and the covered sequences; the CIGAR writer followed by the reader is the "
-              "identity on the trimmed trace for every combination of hard_clip, distinguish_matches, introns and "
-              "include_terminal_gaps; parse(print ops) = ops; run-length aggregation is lossless and maximal; gap removal and "
-              "terminal-gap trimming keep a valid trace; the merge step of the progressive alignment keeps every row's gap-stripped "
-              "content and creates no all-gap column, and by induction over any guide tree align_multiple returns one row per input "
-              "in input order with an order that is the tree's leaf list. The pairwise traces inside align_multiple are assumed to be "
-              "valid global traces (C08's theorem; checked per call by the model in the correspondence). Partial: guide-tree/distance "
-              "computation (float) and numpy indexing are exercised, not proved.")
+LEVEL_TEXT = ("Lean theorems for traces of every length: for the whole alignment, trace_from_strings(get_gapped_sequences) gives the "
+              "trace back (shifted to each row's start offset; equal for rows starting at 0) and the FASTA round trip returns trace "
+              "and sequences (per-row theorems + transpose lemma); the code matrix transposed is the column-by-column code of every "
+              "sequence (dtype-independent); find_terminal_gaps = first column where every sequence has started / one past the last "
+              "where none has ended; remove_terminal_gaps / remove_gaps return exactly the selected columns and keep a valid trace; "
+              "identity (3 modes) and score (terminal penalty on/off, affine cost of every maximal gap run per sequence) equal a "
+              "column-by-column recomputation; the CIGAR writer accepts exactly the traces of a decidable predicate, and for every "
+              "accepted trace with consecutive indices reader(writer) is the identity on the trimmed trace for every combination of "
+              "hard_clip, distinguish_matches, introns and include_terminal_gaps (tuples and string); parse(print ops) = ops; run-length "
+              "aggregation is lossless and maximal; the merge step of the progressive alignment keeps every row's gap-stripped content "
+              "and creates no all-gap column, and by induction over any guide tree align_multiple returns a valid trace (one row per "
+              "input in input order, row k visits exactly input k, no all-gap column) with an order that is a permutation (the tree's "
+              "leaf list). The pairwise traces inside align_multiple are assumed to be valid global traces (C08's theorem; checked per "
+              "call by the model in the correspondence). Partial: guide-tree/distance computation (float), pairwise identity and numpy "
+              "indexing are exercised (correspondence + independent oracle), not proved.")
 LEVEL_NOTE = ("Trusted: Lean kernel + {propext, Classical.choice, Quot.sound}; harness/props/c11.py (generators, adapter, ast translator "
               "of CigarOp/_str_to_op/reader branches); numpy slicing/where/argsort/unique modelled by documented semantics; align_optimal "
               "is C08's subject and enters as a hypothesis; UPGMA/float distances only through 'every leaf once' on the returned tree.")
 RULE = ("seeded valid traces of 2-4 sequences (leading/trailing gaps, insertions next to deletions, start offsets, clipped ends, "
-        "index jumps) through every conversion/helper op against the Lean model, all 16 CIGAR option combinations with introns placed "
+        "index jumps, empty sequences) through every conversion/helper op against the Lean model, a 70000-symbol alphabet stream "
+        "(codes around 2^15/2^16) for get_codes/get_symbols/identity/'='/'X', all 16 CIGAR option combinations with introns placed "
         "inside reference gaps; a malformed stream (out-of-range indices, double-gap columns, introns outside gaps, broken CIGAR text); "
         "align_multiple on 2-6 sequences of length 1-12 with linear/affine gaps, terminal penalty on/off, default and explicit "
-        "distances and custom (also multifurcating) guide trees. non-trivial = trace has a gap or an offset, or an error branch is hit; "
+        "distances, custom (also multifurcating) guide trees and input lists holding the same Sequence object two or three times "
+        "(inputs must be unchanged afterwards). non-trivial = trace has a gap or an offset, or an error branch is hit; "
         "distinct = different op list")
 TRUSTED = ["numpy fancy indexing / np.where / np.unique / np.argsort modelled by documented semantics",
            "align_optimal (C08) enters the MSA theorems as the hypothesis 'returns a valid global trace', checked per call"]
@@ -386,6 +394,14 @@ def msa_cases(rng, n_cases):
                     else:
                         s[rng.randrange(len(s))] = rng.randrange(size)
                 seqs.append(s)
+        # the very same Sequence object given two or three times (object ids; equal content is not enough)
+        same = list(range(n))
+        if n >= 3 and rng.random() < 0.3:
+            grp = rng.sample(range(n), rng.choice([2, 2, 3]))
+            for i in grp[1:]:
+                same[i] = grp[0]
+                seqs[i] = list(seqs[grp[0]])
+            kind = "shared"
         gap = rng.choice([-10, -5, -1, -3, (-10, -1), (-5, -2), (-4, -4), (-2, -1)])
         tp = rng.random() < 0.5
         dist = None
@@ -396,15 +412,48 @@ def msa_cases(rng, n_cases):
                     dist[i][j] = dist[j][i] = rng.choice([0.25, 0.5, 1.0, 1.5, 2.0, 0.125 * rng.randint(1, 40)])
         tree = _rand_tree(rng, range(n), multi=rng.random() < 0.3) if rng.random() < 0.4 else None
         case = {"kind": "msa/" + kind, "alph": alph, "seqs": seqs, "gap": list(gap) if isinstance(gap, tuple) else gap, "tp": tp,
-                "dist": dist, "tree": tree, "mseed": rng.randint(0, 10 ** 6)}
+                "dist": dist, "tree": tree, "mseed": rng.randint(0, 10 ** 6), "same": same}
         line = _msa_line(case)
         if line is not None:
             case["ops"] = [line]
         yield case
 
 
+BIG = 70000
+BIG_POOL = [0, 1, 2, 32766, 32767, 32768, 32769, 65534, 65535, 65536, 65537, 65538, 69999, 4463, 255, 256]
+
+
+def big_cases(rng, n_cases):
+    """alphabet with 70000 symbols (uint32 codes): codes around 2**15 and 2**16, pairs that are 65536 apart"""
+    for _ in range(n_cases):
+        n = rng.choice([2, 2, 3])
+        style = rng.choice(["global", "local"])
+        if n == 2 and rng.random() < 0.6:
+            cols, lens = _rand_pair_trace(rng, style)
+        else:
+            cols, lens, _ = _rand_trace(rng, n, style)
+        base = [rng.choice(BIG_POOL) for _ in range(max(lens + [1]))]
+        seqs = []
+        for ln in lens:
+            sq = []
+            for j in range(ln):
+                r = rng.random()
+                c = base[j % len(base)]
+                if r < 0.25:
+                    c = (c + 65536) % 131072 if (c + 65536) % 131072 < BIG else c
+                elif r < 0.45:
+                    c = rng.choice(BIG_POOL)
+                sq.append(c)
+            seqs.append(sq)
+        ops = [f"setc {BIG} {_codes(seqs)} {_tr(cols)}", "codes", "symcodes"]
+        ops += rng.sample(["ident all", "ident nt", "ident short", "pident all", "pident short", "rmgaps", "termgaps"], 3)
+        ops += [f"cigar_w 0 1 _ 1 {rng.choice('01')} {rng.choice('01')}", "cigar_rt 0 1 _ 1 0 0"]
+        yield {"kind": "bigalph/" + style, "ops": ops, "codes": seqs, "trace": cols, "valid": True}
+
+
 def cases(rng, tier):
     q = tier == "quick"
+    yield from big_cases(rng, 120 if q else 2000)
     yield from trace_cases(rng, 2000 if q else 30000)
     yield from string_cases(rng, 100 if q else 1500)
     yield from cigar_cases(rng, 150 if q else 2500)
@@ -428,6 +477,17 @@ def corpus():
          "ops": ["set ACGT TATAAAAGGTTTCCGACCGTAGGTAGCTGA;CCCCGGTTTGACCGTATGTAG " +
                  _tr([[7 + i, 4 + i] for i in range(5)] + [[12, -1], [13, -1]] + [[14 + i, 9 + i] for i in range(12)]),
                  "cigar_w 0 1 _ 0 0 0", "cigar_w 0 1 _ 0 1 0", "cigar_rt 0 1 _ 0 0 0", "cigar_rt 0 1 _ 1 1 1", "strings", "fasta"]},
+        # empty sequences / sequences without any symbol in the alignment (get_codes, find_terminal_gaps fixes 4f7db913, 95bbe0a9)
+        {"kind": "trace/global", "alph": NUC, "seqs": ["ACG", ""], "trace": [[0, -1], [1, -1], [2, -1]], "style": "global", "valid": True,
+         "ops": ["set ACGT ACG;_ 0,-;1,-;2,-", "strings", "codes", "symbols", "termgaps", "rmterm", "rmgaps", "ident all", "ident nt", "ident short",
+                 "pident all", "pident nt", "pident short", "score 1,0,0,0;0,1,0,0;0,0,1,0;0,0,0,1 -3 -1 1",
+                 "score 1,0,0,0;0,1,0,0;0,0,1,0;0,0,0,1 -3 -1 0", "fasta", "cigar_w 0 1 _ 0 0 0", "cigar_w 1 0 _ 1 0 1", "cigar_rt 1 0 _ 0 0 0"]},
+        {"kind": "trace/local", "alph": NUC, "seqs": ["ACG", "TT", ""], "trace": [[1, -1, -1], [2, 0, -1]], "style": "local", "valid": True,
+         "ops": ["set ACGT ACG;TT;_ 1,-,-;2,0,-", "codes", "symbols", "termgaps", "rmterm", "ident all", "ident nt", "pident all", "pident nt",
+                 "score 1,0,0,0;0,1,0,0;0,0,1,0;0,0,0,1 -2 -2 0", "sel 2,0", "strings"]},
+        {"kind": "trace/global", "alph": NUC, "seqs": ["", ""], "trace": [], "style": "global", "valid": True,
+         "ops": ["set ACGT _;_ _", "strings", "codes", "symbols", "termgaps", "rmterm", "rmgaps", "ident all", "ident nt", "ident short",
+                 "pident all", "pident nt", "score 1,0,0,0;0,1,0,0;0,0,1,0;0,0,0,1 -3 -1 0", "fasta", "cigar_w 0 1 _ 0 0 0", "cigar_w 0 1 _ 0 0 1"]},
         {"kind": "cigar_r", "cigar": "4S5M2D12M", "ops": ["cigar_r 4S5M2D12M 7", "cigar_r 4H5M2D12M 7", "cigar_r 3D9M2D12M4D 0", "cigar_r 4X5=2D7=1X4= 3"]},
     ]
 
@@ -453,6 +513,24 @@ def _mkali(alph, strs, cols):
     else:
         trace = np.zeros((0, len(strs)), dtype=int)
     return Alignment(seqs, trace)
+
+
+_BIG_ALPH = {}
+
+
+def _mkali_big(k, seqs, cols):
+    import numpy as np
+    import biotite.sequence as seq
+    from biotite.sequence.align import Alignment
+    if k not in _BIG_ALPH:
+        _BIG_ALPH[k] = seq.Alphabet(range(k))
+    out = []
+    for codes in seqs:
+        sq = seq.GeneralSequence(_BIG_ALPH[k])
+        sq.code = np.array(codes, dtype=np.int64)
+        out.append(sq)
+    trace = np.array(cols, dtype=int) if len(cols) else np.zeros((0, len(seqs)), dtype=int)
+    return Alignment(out, trace)
 
 
 def _parse_trace(s):
@@ -522,6 +600,17 @@ def run_impl(case):
                 ali = _mkali(alph, _parse_strs(w[2]), _parse_trace(w[3]))
                 return "ok"
             out.append(_fmt(f_set))
+        elif w[0] == "setc":
+            alph = None
+
+            def f_setc():
+                nonlocal ali
+                ali = None
+                ali = _mkali_big(int(w[1]), [[] if x == "_" else [int(y) for y in x.split(",")] for x in w[2].split(";")], _parse_trace(w[3]))
+                return "ok"
+            out.append(_fmt(f_setc))
+        elif w[0] == "symcodes":
+            out.append(_fmt(lambda: "ok " + ";".join(",".join("-" if x is None else str(int(x)) for x in row) if len(row) else "_" for row in align.get_symbols(ali))))
         elif w[0] == "strings":
             out.append(_fmt(lambda: "ok " + _seqs(ali.get_gapped_sequences())))
         elif w[0] == "fromstrings":
@@ -599,7 +688,7 @@ def run_impl(case):
         elif w[0] == "msa":
             r = _run_msa(case)
             if r[0] == "ok":
-                ali_m, order, tree, _calls = r[1]
+                ali_m, order, tree, _calls, _after = r[1]
                 out.append("ok " + _tr(ali_m["trace"]) + " | " + ",".join(str(x) for x in order) + " | " + _codes(ali_m["seqs"]) + " | valid=true")
             elif r[0] == "err":
                 out.append("ERR:" + r[1])
@@ -632,7 +721,13 @@ def _msa_inputs(case):
         for j in range(i, k):
             m[i, j] = m[j, i] = r.randint(-4, 2) if i != j else r.randint(3, 9)
     matrix = align.SubstitutionMatrix(alphabet, alphabet, m)
-    seqs = [mk(c) for c in case["seqs"]]
+    same = case.get("same") or list(range(len(case["seqs"])))
+    objs = {}
+    seqs = []
+    for i, c in enumerate(case["seqs"]):
+        if same[i] not in objs:
+            objs[same[i]] = mk(case["seqs"][same[i]])
+        seqs.append(objs[same[i]])
     gap = tuple(case["gap"]) if isinstance(case["gap"], list) else case["gap"]
     dist = None if case["dist"] is None else np.array(case["dist"], dtype=float)
     tree = None
@@ -679,7 +774,8 @@ def _msa_call(case):
         M.align_optimal = orig
     n_leaves = len(gtree.leaves)
     return ({"trace": ali.trace.tolist(), "seqs": [s.code.tolist() for s in ali.sequences]}, [int(x) for x in order],
-            _tree_text(gtree.root), calls[len(calls) - (n_leaves - 1):] if n_leaves > 1 else [])
+            _tree_text(gtree.root), calls[len(calls) - (n_leaves - 1):] if n_leaves > 1 else [],
+            [[int(x) for x in s.code.tolist()] for s in seqs])
 
 
 _MSA_CACHE = {}
@@ -687,7 +783,7 @@ _MSA_CACHE = {}
 
 def _run_msa(case):
     from common import sandbox, util
-    key = util.jdump({k: v for k, v in case.items() if k in ("alph", "seqs", "gap", "tp", "dist", "tree", "mseed")})
+    key = util.jdump({k: v for k, v in case.items() if k in ("alph", "seqs", "gap", "tp", "dist", "tree", "mseed", "same")})
     if key not in _MSA_CACHE:
         import biotite.sequence.align.multiple  # noqa: F401  (import in the parent: the forked child must not pay for it)
         import biotite.sequence.phylo  # noqa: F401
@@ -705,7 +801,7 @@ def _msa_line(case):
     r = _run_msa(case)
     if r[0] != "ok":
         return None
-    _ali, _order, tree, calls = r[1]
+    _ali, _order, tree, calls, _after = r[1]
     k = {"nuc": 4, "prot": 24, "gen": 6}[case["alph"]]
     return f"msa {k} {_codes(case['seqs'])} {tree} " + ("|".join(_tr(c) for c in calls) if calls else "_")
 
@@ -753,6 +849,8 @@ def oracle(case):
     kind = case.get("kind", "")
     if kind.startswith("trace/") and case.get("valid"):
         return _oracle_trace(case)
+    if kind.startswith("bigalph/"):
+        return _oracle_big(case)
     if kind.startswith("msa/"):
         return _oracle_msa(case)
     if kind == "fromstrings":
@@ -760,6 +858,54 @@ def oracle(case):
     if kind == "cigar_r":
         return _oracle_cigar_read(case)
     return []
+
+
+def _oracle_big(case):
+    """get_codes / get_symbols / identity / '=' 'X' equal a column-by-column recomputation whatever the code dtype"""
+    import warnings
+
+    import numpy as np
+    import biotite.sequence.align as align
+    seqs, cols = case["codes"], case["trace"]
+    n, ncol = len(seqs), len(cols)
+    ali = _mkali_big(BIG, seqs, cols)
+    v = []
+    exp = [[-1 if c[k] < 0 else seqs[k][c[k]] for c in cols] for k in range(n)]
+    got = align.get_codes(ali).tolist()
+    if got != exp:
+        v.append(("C11/codes/matrix/large-alphabet", f"{cols} {seqs} -> {got}, expected {exp}"))
+    try:
+        sy = [[None if x is None else int(x) for x in row] for row in align.get_symbols(ali)]
+    except Exception as e:  # noqa: BLE001
+        sy = type(e).__name__
+    if sy != [[None if x < 0 else x for x in row] for row in exp]:
+        v.append(("C11/symbols/matrix/large-alphabet", f"{cols} {seqs} -> {sy}"))
+    nmatch = sum(1 for i in range(ncol) if all(x >= 0 for x in cols[i]) and len({exp[k][i] for k in range(n)}) == 1)
+    if ncol:
+        got_id = align.get_sequence_identity(ali, "all")
+        if abs(got_id - nmatch / ncol) > 1e-9:
+            v.append(("C11/helpers/identity/all/large-alphabet", f"{cols} {seqs} -> {got_id}, expected {nmatch}/{ncol}"))
+        with np.errstate(all="ignore"), warnings.catch_warnings():
+            warnings.simplefilter("ignore")
+            pid = np.asarray(align.get_pairwise_sequence_identity(ali, "all"))
+        for a in range(n):
+            for b in range(n):
+                m = sum(1 for i in range(ncol) if cols[i][a] >= 0 and cols[i][b] >= 0 and exp[a][i] == exp[b][i])
+                if abs(float(pid[a][b]) - m / ncol) > 1e-9:
+                    v.append(("C11/helpers/pairwise-identity/all/large-alphabet", f"{cols} {seqs} [{a},{b}] -> {pid.tolist()}"))
+                    break
+    pair = [[c[0], c[1]] for c in cols]
+    if pair and not any(c[0] < 0 and c[1] < 0 for c in pair) and any(c[1] >= 0 for c in pair) and _contig(pair, 0) and _contig(pair, 1):
+        try:
+            cig = align.write_alignment_to_cigar(ali, 0, 1, distinguish_matches=True, include_terminal_gaps=True)
+        except Exception as e:  # noqa: BLE001
+            cig = type(e).__name__
+        import re
+        body = "".join(b * int(a) for a, b in re.findall(r"(\d+)([MIDN=X])", cig))
+        want = "".join("I" if c[0] < 0 else "D" if c[1] < 0 else ("=" if seqs[0][c[0]] == seqs[1][c[1]] else "X") for c in pair)
+        if body != want:
+            v.append(("C11/cigar/write/columns/large-alphabet", f"{pair} {seqs} -> {cig!r}, expected columns {want}"))
+    return v
 
 
 def _oracle_fromstrings(case):
@@ -1058,10 +1204,12 @@ def _oracle_msa(case):
         if case["dist"] is None and r[1] == "ZeroDivisionError":
             return [("C11/msa/distances/ZeroDivisionError", what)]
         return [(f"C11/msa/rejected/{r[1]}", what)]
-    ali, order, tree, _calls = r[1]
+    ali, order, tree, _calls, after = r[1]
     v = []
+    if [list(x) for x in after] != [list(x) for x in case["seqs"]]:
+        v.append(("C11/msa/input-sequences-modified", f"seqs={case['seqs']} same={case.get('same')} are {after} after align_multiple"))
     cols, out_seqs = ali["trace"], ali["seqs"]
-    what = f"seqs={case['seqs']} gap={case['gap']} tp={case['tp']} tree={case['tree']} -> trace={cols} order={order} tree={tree}"
+    what = f"seqs={case['seqs']} same={case.get('same')} gap={case['gap']} tp={case['tp']} tree={case['tree']} -> trace={cols} order={order} tree={tree}"
     if any(len(c) != n for c in cols) or len(out_seqs) != n:
         return [("C11/msa/row-count", what)]
     if [list(s) for s in out_seqs] != [list(s) for s in case["seqs"]]:
